@@ -57,7 +57,7 @@ Step ==
         /\ UNCHANGED <<C, S, gh, seq>>
      ELSE
         LET fault == e.op \in FaultOps
-            wf    == WellFormed(e) /\ (fault \/ "obs" \in DOMAIN e)
+            wf    == WellFormed(e) /\ (IF fault THEN "now" \in DOMAIN e ELSE "obs" \in DOMAIN e)
             M     == IF ~wf THEN S ELSE IF fault THEN FaultNext(C, S, e) ELSE e.obs
             v     == IF ~wf \/ ended \/ e.seq # seq + 1 THEN "viol"
                      ELSE IF fault THEN "ok"
